@@ -400,3 +400,766 @@ def unit_modes(ctx):
                 _mac_case(u, key, x, cs, glen)
                 _hash_case(u, x, cs, hlen)
     u.done()
+
+
+# ---------------------------------------------------------------------------
+# unit: wide block (every length 32..208) and KWP, with tamper rejection
+# ---------------------------------------------------------------------------
+
+def wblcls(count):
+    if count % 16:
+        return "ragged(base)"
+    if count < 64:
+        return "full<64(base)"
+    if count == 64:
+        return "full64(E-opt,D-base)"
+    return "full>=80(opt)"
+
+
+def _tamper(u, fn, cls, call, groups, exp_err, det):
+    """groups: list of (group name, list of argument tuples).  Every tampered call must return exp_err."""
+    ctx, lib = u.ctx, u.lib
+    for gname, variants in groups:
+        if not variants:
+            continue
+        if not ctx.case(dict(det, op=fn, tamper=gname, n=len(variants)), "%s:tamper-%s" % (cls, gname)):
+            continue
+        rets = []
+        for what, args in variants:
+            r = call(*args)
+            lib.release()
+            rets.append(r)
+            if r != exp_err:
+                u.bad(fn, "forgery" if r == 0 else "ret", "%s:tamper-%s" % (cls.split(":")[0], gname),
+                      "%s returned %s for a tampered %s (expected %s)" % (fn, errname(r), gname, errname(exp_err)),
+                      dict(det, flipped=what))
+        ctx.digest(*rets)
+        ctx.count(len(variants) - 1, "%s:tamper-%s" % (cls, gname))
+
+
+def unit_wbl(ctx):
+    u = U(ctx)
+    lib, rng = u.lib, u.rng
+    chunk, nch, reps, tamper_every = (ctx.params[k] for k in ("chunk", "nch", "reps", "tamper_every"))
+    BAD_KT = errcode("ERR_BAD_KEYTOKEN")
+    combos = [(klen, c) for c in range(32, 209) for klen in KLENS]
+    for idx, (klen, count) in enumerate(combos):
+        if idx % nch != chunk:
+            continue
+        for rep in range(reps * (6 if count % 16 == 0 else 1)):     # whole-block lengths take the Opt paths
+            key = u.key(klen)
+            x = pat(rng, count)
+            hdr = pat(rng, 16)
+            null_hdr = rng.randrange(4) == 0
+            fl = [rng.random() for _ in range(24)]
+            wc = wblcls(count)
+            det = {"key": key, "buf": x}
+            # --- WBL low level
+            if ctx.case(dict(det, op="beltWBLStepE"), "wbl:E:" + wc):
+                exp = M.wblock_encr(x, key)
+                st = lib.alloc(lib.beltWBL_keep())
+                lib.beltWBLStart(st, lib.mk(key), klen)
+                p = lib.mk(x)
+                lib.beltWBLStepE(p, count, st)
+                got = lib.rd(p, count)
+                lib.beltWBLStepD(p, count, st)
+                back = lib.rd(p, count)
+                lib.release()
+                ctx.digest(got, back)
+                u.eq("beltWBLStepE", wc, got, exp, det)
+                u.inv("beltWBLStepD", wc, back, x, det)
+            if ctx.case(dict(det, op="beltWBLStepD"), "wbl:D:" + wc):
+                exp = M.wblock_decr(x, key)
+                st = lib.alloc(lib.beltWBL_keep())
+                lib.beltWBLStart(st, lib.mk(key), klen)
+                p = lib.mk(x)
+                lib.beltWBLStepD(p, count, st)
+                got = lib.rd(p, count)
+                p1, p2 = lib.mk(x[:count - 16]), lib.mk(x[count - 16:])
+                lib.beltWBLStepD2(p1, p2, count, st)
+                got2 = lib.rd(p1, count - 16) + lib.rd(p2, 16)
+                lib.beltWBLStepE(p, count, st)
+                back = lib.rd(p, count)
+                lib.release()
+                ctx.digest(got, got2, back)
+                u.eq("beltWBLStepD", wc, got, exp, det)
+                u.eq("beltWBLStepD2", wc, got2, exp, det)
+                u.inv("beltWBLStepE", wc, back, x, det)
+            if ctx.case(dict(det, op="beltWBLStepR"), "wbl:R:" + wc):
+                n = (count + 15) // 16
+                st = lib.alloc(lib.beltWBL_keep())
+                lib.beltWBLStart(st, lib.mk(key), klen)
+                p = lib.mk(x)
+                cur, outs, exps = x, [], []
+                for k in range(3):
+                    lib.beltWBLStepR(p, count, st)
+                    outs.append(lib.rd(p, count))
+                    cur = M.wblock_encr(cur, key, first_round=2 * n * k + 1)
+                    exps.append(cur)
+                lib.release()
+                ctx.digest(*outs)
+                u.eq("beltWBLStepR", wc, outs, exps, det)
+            # --- KWP high level: key of count-16 octets + header
+            src = x[:count - 16]
+            hdet = {"key": key, "src": src, "header": None if null_hdr else hdr}
+            token = M.kwp_wrap(src, None if null_hdr else hdr, key)
+            if ctx.case(dict(hdet, op="beltKWPWrap"), "kwp:wrap:" + wc):
+                dest = lib.alloc(count)
+                r = lib.beltKWPWrap(dest, lib.mk(src), count - 16, 0 if null_hdr else lib.mk(hdr), lib.mk(key), klen)
+                got = lib.rd(dest, count)
+                lib.release()
+                ctx.digest(got, r)
+                if u.rc("beltKWPWrap", wc, r, 0, hdet):
+                    u.eq("beltKWPWrap", wc, got, token, hdet)
+            if ctx.case(dict(hdet, op="beltKWPUnwrap", token=token), "kwp:unwrap:" + wc):
+                dest = lib.alloc(count - 16)
+                r = lib.beltKWPUnwrap(dest, lib.mk(token), count, 0 if null_hdr else lib.mk(hdr), lib.mk(key), klen)
+                got = lib.rd(dest, count - 16)
+                lib.release()
+                ctx.digest(got, r)
+                if u.rc("beltKWPUnwrap", wc + ":accept", r, 0, hdet):
+                    u.inv("beltKWPUnwrap", wc, got, src, hdet)
+            if ctx.case(dict(det, op="beltKWPUnwrap-random-token", header=hdr), "kwp:unwrap-random:" + wc):
+                # a random string is a valid token for exactly one header: the model's
+                t = M.wblock_decr(x, key)
+                dest = lib.alloc(count - 16)
+                r = lib.beltKWPUnwrap(dest, lib.mk(x), count, lib.mk(t[count - 16:]), lib.mk(key), klen)
+                got = lib.rd(dest, count - 16)
+                dest2 = lib.alloc(count - 16)
+                r2 = lib.beltKWPUnwrap(dest2, lib.mk(x), count, lib.mk(hdr), lib.mk(key), klen)
+                lib.release()
+                ctx.digest(got, r, r2)
+                if u.rc("beltKWPUnwrap", wc + ":accept", r, 0, det):
+                    u.eq("beltKWPUnwrap", wc, got, t[:count - 16], det)
+                if hdr != t[count - 16:]:
+                    u.rc("beltKWPUnwrap", wc + ":reject", r2, BAD_KT, det)
+            # --- tamper
+            if (idx // nch + rep) % tamper_every == 0:
+                h0 = bytes(16) if null_hdr else hdr
+
+                def call(tok, h, k):
+                    return lib.beltKWPUnwrap(lib.alloc(count - 16), lib.mk(tok), count, lib.mk(h), lib.mk(k), klen)
+                groups = [
+                    ("header", [(b, (token, flip(h0, b), key)) for b in range(128)]),
+                    ("token", [(b, (flip(token, b), h0, key)) for b in sorted({int(f * 8 * count) for f in fl[:16]})]),
+                    ("key", [(b, (token, h0, flip(key, b))) for b in sorted({int(f * 8 * klen) for f in fl[16:]})]),
+                ]
+                _tamper(u, "beltKWPUnwrap", "kwp:" + wc, call, groups, BAD_KT, dict(hdet, token=token))
+    u.done()
+
+
+# ---------------------------------------------------------------------------
+# unit: DWP, CHE — values, inverse, Start/Step, tamper rejection
+# ---------------------------------------------------------------------------
+
+def _aead_case(u, name, key, iv, x, ad, cx, ca, cy, fl, do_tamper):
+    ctx, lib = u.ctx, u.lib
+    klen = len(key)
+    BAD_MAC = errcode("ERR_BAD_MAC")
+    wrapm = M.dwp_wrap if name == "DWP" else M.che_wrap
+    cls = "%s:x-%s" % (name.lower(), lencls(len(x)))
+    sig = name.lower() + ":" + lencls(len(x))
+    det = {"key": key, "iv": iv, "src1": x, "src2": ad}
+    y, tag = wrapm(x, ad, key, iv)
+    W, UW = "belt%sWrap" % name, "belt%sUnwrap" % name
+    if ctx.case(dict(det, op=W), cls):
+        dest, mac = lib.alloc(len(x)), lib.alloc(8)
+        r = getattr(lib, W)(dest, mac, lib.mk(x), len(x), lib.mk(ad), len(ad), lib.mk(key), klen, lib.mk(iv))
+        gy, gt = lib.rd(dest, len(x)), lib.rd(mac, 8)
+        lib.release()
+        ctx.digest(gy, gt, r)
+        if u.rc(W, sig, r, 0, det):
+            u.eq(W, sig + ":ciphertext", gy, y, det)
+            u.eq(W, sig + ":mac", gt, tag, det)
+    if ctx.case(dict(det, op=UW, ct=y, mac=tag), "%s:unwrap:ad-%s" % (name.lower(), lencls(len(ad)))):
+        dest = lib.alloc(len(x))
+        r = getattr(lib, UW)(dest, lib.mk(y), len(y), lib.mk(ad), len(ad), lib.mk(tag), lib.mk(key), klen, lib.mk(iv))
+        gx = lib.rd(dest, len(x))
+        lib.release()
+        ctx.digest(gx, r)
+        if u.rc(UW, sig + ":accept", r, 0, det):
+            u.inv(UW, sig, gx, x, det)
+    if ctx.case(dict(det, op="belt%sStep" % name, cuts=[ca, cx, cy]), "%s:steps:ad-%s" % (name.lower(), lencls(len(ad)))):
+        f = lambda s: getattr(lib, "belt%s%s" % (name, s))
+        st = lib.alloc(f("_keep")())
+        f("Start")(st, lib.mk(key), klen, lib.mk(iv))
+        feed_steps(lib, f("StepI"), st, ad, ca)
+        gy = run_steps(lib, f("StepE"), st, x, cx)
+        feed_steps(lib, f("StepA"), st, gy, cy)
+        mac = lib.alloc(8)
+        f("StepG")(mac, st)
+        gt = lib.rd(mac, 8)
+        # receiver side
+        st2 = lib.alloc(f("_keep")())
+        f("Start")(st2, lib.mk(key), klen, lib.mk(iv))
+        feed_steps(lib, f("StepI"), st2, ad, ca)
+        feed_steps(lib, f("StepA"), st2, y, cy)
+        v = f("StepV")(lib.mk(tag), st2)
+        gx = run_steps(lib, f("StepD"), st2, y, cx)
+        st3 = lib.alloc(f("_keep")())
+        f("Start")(st3, lib.mk(key), klen, lib.mk(iv))
+        feed_steps(lib, f("StepI"), st3, ad, ca)
+        feed_steps(lib, f("StepA"), st3, y, cy)
+        vbad = f("StepV")(lib.mk(flip(tag, int(fl[0] * 64))), st3)
+        lib.release()
+        ctx.digest(gy, gt, v, gx, vbad)
+        det2 = dict(det, cuts=[ca, cx, cy])
+        u.eq("belt%sStepE" % name, sig, gy, y, det2)
+        u.eq("belt%sStepG" % name, sig, gt, tag, det2)
+        u.eq("belt%sStepV" % name, sig + ":accept", bool(v), True, det2)
+        u.eq("belt%sStepV" % name, sig + ":reject", bool(vbad), False, det2)
+        u.inv("belt%sStepD" % name, sig, gx, x, det2)
+    if do_tamper:
+        def call(ct, a, t, k, s):
+            return getattr(lib, UW)(lib.alloc(len(ct)), lib.mk(ct), len(ct), lib.mk(a), len(a), lib.mk(t),
+                                    lib.mk(k), klen, lib.mk(s))
+        pick = lambda fs, nbits: sorted({int(f * nbits) for f in fs}) if nbits else []
+        groups = [
+            ("mac", [(b, (y, ad, flip(tag, b), key, iv)) for b in range(64)]),
+            ("ciphertext", [(b, (flip(y, b), ad, tag, key, iv)) for b in pick(fl[1:9], 8 * len(y))]),
+            ("ad", [(b, (y, flip(ad, b), tag, key, iv)) for b in pick(fl[9:17], 8 * len(ad))]),
+            ("iv", [(b, (y, ad, tag, key, flip(iv, b))) for b in pick(fl[17:25], 128)]),
+            ("key", [(b, (y, ad, tag, flip(key, b), iv)) for b in pick(fl[25:33], 8 * klen)]),
+            # moving octets between the public and the critical part must not verify either (length block)
+            ("split", [(k, (y[k:], ad + y[:k], tag, key, iv)) for k in (1, 16) if len(y) >= k] +
+                      [(-k, (ad[len(ad) - k:] + y, ad[:len(ad) - k], tag, key, iv)) for k in (1, 16) if len(ad) >= k]),
+        ]
+        _tamper(u, UW, name.lower(), call, groups, BAD_MAC, dict(det, ct=y, mac=tag))
+
+
+def unit_aead(ctx):
+    u = U(ctx)
+    rng = u.rng
+    chunk, nch, nad, tamper_every = (ctx.params[k] for k in ("chunk", "nch", "nad", "tamper_every"))
+    combos = [(klen, L) for L in range(0, 81) for klen in KLENS]
+    for idx, (klen, L) in enumerate(combos):
+        if idx % nch != chunk:
+            continue
+        for j in range(nad):
+            la = MSG_BOUNDARY[(idx + 5 * j) % len(MSG_BOUNDARY)] if nad < len(MSG_BOUNDARY) else MSG_BOUNDARY[j]
+            for name in ("DWP", "CHE"):
+                key = u.key(klen)
+                iv = pat(rng, 16)
+                x, ad = pat(rng, L), pat(rng, la)
+                cx, ca, cy = cuts_stream(rng, L), cuts_stream(rng, la), cuts_stream(rng, L)
+                fl = [rng.random() for _ in range(33)]
+                _aead_case(u, name, key, iv, x, ad, cx, ca, cy, fl, (idx // nch + j) % tamper_every == 0)
+    u.done()
+
+
+# ---------------------------------------------------------------------------
+# unit: carries — CTR/DWP counters with all-ones low words, CHE/BDE multiplication by C at the top bit
+# ---------------------------------------------------------------------------
+
+def unit_carry(ctx):
+    u = U(ctx)
+    lib, rng = u.lib, u.rng
+    reps = ctx.params["reps"]
+    for rep in range(reps):
+        for klen in KLENS:
+            for bits in (32, 64, 96, 128):
+                for back in (0, 1, 2):
+                    key = u.key(klen)
+                    hi = rng.getrandbits(128)
+                    L = rng.choice((48, 49, 63, 64, 70))
+                    x, ad = rng.randbytes(L), rng.randbytes(rng.randrange(0, 20))
+                    mask = (1 << bits) - 1
+                    s0 = ((hi & ~mask) | (mask - back)) & M.M128        # counter value E(iv); +1 (+2, +3) carries
+                    iv = M.block_decr(s0.to_bytes(16, "little"), key)
+                    cls = "ctr-carry:low%d-ones" % bits
+                    det = {"key": key, "iv": iv, "src": x, "counter": "%032x" % s0}
+                    if ctx.case(dict(det, op="beltCTR"), cls):
+                        dest = lib.alloc(L)
+                        r = lib.beltCTR(dest, lib.mk(x), L, lib.mk(key), klen, lib.mk(iv))
+                        got = lib.rd(dest, L)
+                        st = lib.alloc(lib.beltCTR_keep())
+                        lib.beltCTRStart(st, lib.mk(key), klen, lib.mk(iv))
+                        got2 = run_steps(lib, lib.beltCTRStepE, st, x, [7, 9, 1, L - 17])
+                        lib.release()
+                        ctx.digest(got, r, got2)
+                        exp = M.ctr(x, key, iv)
+                        if M.block_encr(iv, key) != s0.to_bytes(16, "little"):
+                            raise Harness("model block_decr/encr inconsistent")
+                        u.eq("beltCTR", "carry-low%d" % bits, got, exp, det)
+                        u.eq("beltCTRStepE", "carry-low%d" % bits, got2, exp, det)
+                    if ctx.case(dict(det, op="beltDWPWrap", src2=ad), "dwp-carry:low%d-ones" % bits):
+                        dest, mac = lib.alloc(L), lib.alloc(8)
+                        r = lib.beltDWPWrap(dest, mac, lib.mk(x), L, lib.mk(ad), len(ad), lib.mk(key), klen, lib.mk(iv))
+                        gy, gt = lib.rd(dest, L), lib.rd(mac, 8)
+                        lib.release()
+                        ctx.digest(gy, gt, r)
+                        y, t = M.dwp_wrap(x, ad, key, iv)
+                        u.eq("beltDWPWrap", "carry-low%d" % bits, (gy, gt), (y, t), dict(det, src2=ad))
+            # multiplication by C: s = E(iv) with chosen top bits
+            for kind in ("zero", "top-bit", "all-ones", "top-bit-random", "no-top-bit-random", "word-tops"):
+                key = u.key(klen)
+                rnd = rng.getrandbits(128)
+                L = rng.choice((48, 64, 80))
+                x, ad = rng.randbytes(L), rng.randbytes(rng.randrange(0, 20))
+                s0 = {"zero": 0, "top-bit": 1 << 127, "all-ones": M.M128, "top-bit-random": rnd | (1 << 127),
+                      "no-top-bit-random": rnd & ~(1 << 127),
+                      "word-tops": (1 << 31) | (1 << 63) | (1 << 95) | (rnd & (1 << 127))}[kind]
+                iv = M.block_decr(s0.to_bytes(16, "little"), key)
+                det = {"key": key, "iv": iv, "src": x, "s": "%032x" % s0}
+                if ctx.case(dict(det, op="beltCHEWrap", src2=ad), "che-mulc:" + kind):
+                    dest, mac = lib.alloc(L), lib.alloc(8)
+                    r = lib.beltCHEWrap(dest, mac, lib.mk(x), L, lib.mk(ad), len(ad), lib.mk(key), klen, lib.mk(iv))
+                    gy, gt = lib.rd(dest, L), lib.rd(mac, 8)
+                    lib.release()
+                    ctx.digest(gy, gt, r)
+                    u.eq("beltCHEWrap", "mulc-" + kind, (gy, gt), M.che_wrap(x, ad, key, iv), dict(det, src2=ad))
+                if ctx.case(dict(det, op="beltBDEEncr"), "bde-mulc:" + kind):
+                    dest = lib.alloc(L)
+                    r = lib.beltBDEEncr(dest, lib.mk(x), L, lib.mk(key), klen, lib.mk(iv))
+                    got = lib.rd(dest, L)
+                    dest2 = lib.alloc(L)
+                    r2 = lib.beltBDEDecr(dest2, lib.mk(x), L, lib.mk(key), klen, lib.mk(iv))
+                    got2 = lib.rd(dest2, L)
+                    lib.release()
+                    ctx.digest(got, r, got2, r2)
+                    u.eq("beltBDEEncr", "mulc-" + kind, got, M.bde_encr(x, key, iv), det)
+                    u.eq("beltBDEDecr", "mulc-" + kind, got2, M.bde_decr(x, key, iv), det)
+    u.done()
+
+
+# ---------------------------------------------------------------------------
+# unit: exported length helpers (belt_lcl.h) — the 128-bit hash length block and the 64-bit DWP/CHE half blocks
+# ---------------------------------------------------------------------------
+
+def unit_addbits(ctx):
+    u = U(ctx)
+    lib, rng = u.lib, u.rng
+    n = ctx.params["n"]
+    for name in ("beltBlockAddBitSizeU32", "beltHalfBlockAddBitSizeW"):
+        if not lib.has(name):
+            raise Harness(name + " is not exported")
+        lib.declare(name, "v", "pz")
+    SZ = 2 ** 64 - 1
+    counts = [0, 1, 2 ** 29 - 1, 2 ** 29, 2 ** 29 + 1, 2 ** 32 - 1, 2 ** 32, 2 ** 61 - 1, 2 ** 61, 2 ** 61 + 1,
+              2 ** 63, SZ, SZ - 1, 2 ** 64 - 2 ** 29, 2 ** 64 - 2 ** 32, 2 ** 35 - 1]
+
+    def blocks(nbits):
+        out = [0, 2 ** nbits - 1, 2 ** nbits - 8, 2 ** nbits - 9]
+        for k in range(32, nbits + 1, 32):
+            out += [2 ** k - 1, 2 ** k - 8, (2 ** nbits - 1) ^ (2 ** (k - 32) - 1 if k > 32 else 0)]
+            out += [(2 ** k - 1) & ~7]
+        return out
+    for fn, nbits in (("beltBlockAddBitSizeU32", 128), ("beltHalfBlockAddBitSizeW", 64)):
+        nb = nbits // 8
+        cases = [(b, [c]) for b in blocks(nbits) for c in counts]
+        for _ in range(n):
+            b = rng.getrandbits(nbits) | (rng.choice((0, 2 ** 32 - 1, 2 ** 64 - 1, 2 ** 96 - 1)) & (2 ** nbits - 1))
+            cs = [rng.choice(counts + [rng.getrandbits(rng.randrange(1, 65))]) for _ in range(rng.randrange(1, 5))]
+            cases.append((b, cs))
+        for b, cs in cases:
+            if not ctx.case({"op": fn, "block": "%x" % b, "counts": cs},
+                            "%s:%s" % ("len128" if nbits == 128 else "len64", "boundary" if len(cs) == 1 else "chain")):
+                continue
+            p = lib.mk(b.to_bytes(nb, "little"))
+            exp, outs, exps = b, [], []
+            for c in cs:
+                getattr(lib, fn)(p, c)
+                outs.append(int.from_bytes(lib.rd(p, nb), "little"))
+                exp = (exp + 8 * c) % 2 ** nbits
+                exps.append(exp)
+            lib.release()
+            ctx.digest(*outs)
+            if outs != exps:
+                carry = "+".join(sorted({"w%d" % k for k in range(32, nbits + 1, 32)
+                                         if any((e >> (k - 1)) < (o >> (k - 1)) or (e >> k) != (o >> k) for e, o in
+                                                zip(exps, outs))})[:1])
+                u.bad(fn, "value", "carry", "%s(block, count) is not block + 8*count mod 2^%d" % (fn, nbits),
+                      {"block": "%x" % b, "counts": cs, "expected": ["%x" % e for e in exps],
+                       "got": ["%x" % o for o in outs], "first_bad_word": carry})
+    u.done()
+
+
+# ---------------------------------------------------------------------------
+# unit: KRP, HMAC (key lengths 0..96), PBKDF2 (iter 1..50)
+# ---------------------------------------------------------------------------
+
+def unit_kdf(ctx):
+    u = U(ctx)
+    lib, rng = u.lib, u.rng
+    chunk, nch, reps, nmsg = (ctx.params[k] for k in ("chunk", "nch", "reps", "nmsg"))
+    work = [("krp", n, m) for n in KLENS for m in KLENS if m <= n for _ in range(reps)]
+    work += [("hmac", kl, j) for kl in range(0, 97) for j in range(nmsg)]
+    work += [("pbkdf2", it, 0) for it in range(1, 51)]
+    for idx, (kind, a, b) in enumerate(work):
+        if idx % nch != chunk:
+            continue
+        if kind == "krp":
+            n, m = a, b
+            key, level, hdr = u.key(n), pat(rng, 12), pat(rng, 16)
+            det = {"src": key, "level": level, "header": hdr, "m": m}
+            if ctx.case(dict(det, op="beltKRP"), "krp:%d->%d" % (n, m)):
+                exp = M.krp(key, level, hdr, m)
+                dest = lib.alloc(m)
+                r = lib.beltKRP(dest, m, lib.mk(key), n, lib.mk(level), lib.mk(hdr))
+                got = lib.rd(dest, m)
+                # one state, all admissible output lengths (belt_test.c A.28 style)
+                st = lib.alloc(lib.beltKRP_keep())
+                lib.beltKRPStart(st, lib.mk(key), n, lib.mk(level))
+                outs, exps = [], []
+                for mm in KLENS:
+                    if mm <= n:
+                        o = lib.alloc(mm)
+                        lib.beltKRPStepG(o, mm, lib.mk(hdr), st)
+                        outs.append(lib.rd(o, mm))
+                        exps.append(M.krp(key, level, hdr, mm))
+                lib.release()
+                ctx.digest(got, r, *outs)
+                if u.rc("beltKRP", "%d->%d" % (n, m), r, 0, det):
+                    u.eq("beltKRP", "%d->%d" % (n, m), got, exp, det)
+                u.eq("beltKRPStepG", "n=%d" % n, outs, exps, det)
+        elif kind == "hmac":
+            kl = a
+            L = MSG_BOUNDARY[(kl + 3 * b) % len(MSG_BOUNDARY)] if nmsg < len(MSG_BOUNDARY) else MSG_BOUNDARY[b]
+            key, x = rng.randbytes(kl), pat(rng, L)
+            cs = cuts_stream(rng, L)
+            glen = rng.randrange(0, 33)
+            kc = "empty" if kl == 0 else "<32" if kl < 32 else "=32" if kl == 32 else ">32(hashed)"
+            cls = "hmac:key%s" % kc
+            det = {"key": key, "src": x}
+            if ctx.case(dict(det, op="beltHMAC", cuts=cs, glen=glen), cls):
+                exp = M.hmac(key, x)
+                o = lib.alloc(32)
+                r = lib.beltHMAC(o, lib.mk(x), L, lib.mk(key), kl)
+                got = lib.rd(o, 32)
+                st = lib.alloc(lib.beltHMAC_keep())
+                lib.beltHMACStart(st, lib.mk(key), kl)
+                feed_steps(lib, lib.beltHMACStepA, st, x, cs)
+                o1, o2 = lib.alloc(32), lib.alloc(glen)
+                lib.beltHMACStepG(o1, st)
+                lib.beltHMACStepG2(o2, glen, st)
+                v = lib.beltHMACStepV(lib.mk(exp), st)
+                v2 = lib.beltHMACStepV2(lib.mk(exp[:glen]), glen, st)
+                vbad = lib.beltHMACStepV(lib.mk(flip(exp, glen * 7 % 256)), st)
+                g1, g2 = lib.rd(o1, 32), lib.rd(o2, glen)
+                feed_steps(lib, lib.beltHMACStepA, st, x, [L])
+                o3 = lib.alloc(32)
+                lib.beltHMACStepG(o3, st)
+                g3 = lib.rd(o3, 32)
+                lib.release()
+                ctx.digest(got, r, g1, g2, v, v2, vbad, g3)
+                sig = "key" + kc + ":msg-" + lencls(L, 32)
+                if u.rc("beltHMAC", sig, r, 0, det):
+                    u.eq("beltHMAC", sig, got, exp, det)
+                u.eq("beltHMACStepG", sig, g1, exp, dict(det, cuts=cs))
+                u.eq("beltHMACStepG2", sig, g2, exp[:glen], dict(det, cuts=cs, mac_len=glen))
+                u.eq("beltHMACStepV", sig + ":accept", (bool(v), bool(v2)), (True, True), det)
+                u.eq("beltHMACStepV", sig + ":reject", bool(vbad), False, det)
+                u.eq("beltHMACStepG", sig + ":continue", g3, M.hmac(key, x + x), det)
+        else:
+            it = a
+            pwd = rng.randbytes(rng.choice((0, 1, 8, 16, 31, 32, 33, 40, 64, 65)))
+            salt = rng.randbytes(rng.choice((0, 1, 8, 20, 27, 28, 29, 60)))
+            det = {"pwd": pwd, "iter": it, "salt": salt}
+            if ctx.case(dict(det, op="beltPBKDF2"), "pbkdf2:iter%s" % ("1" if it == 1 else "2" if it == 2 else ">2")):
+                o = lib.alloc(32)
+                r = lib.beltPBKDF2(o, lib.mk(pwd), len(pwd), it, lib.mk(salt), len(salt))
+                got = lib.rd(o, 32)
+                lib.release()
+                ctx.digest(got, r)
+                if u.rc("beltPBKDF2", "iter", r, 0, det):
+                    u.eq("beltPBKDF2", "iter", got, M.pbkdf2(pwd, it, salt), det)
+    u.done()
+
+
+# ---------------------------------------------------------------------------
+# FMT
+# ---------------------------------------------------------------------------
+# Observing the block count.  beltFMTCalcB is static, but
+#     beltFMT_keep(mod, count) = sizeof(belt_fmt_st) + 8 * (beltFMTCalcB(mod, (count + 1) / 2) + 1),
+# so B(mod, n) for n in [1, 300] is  (beltFMT_keep(mod, 2n) - base) / 8 - 1  with  base = sizeof(belt_fmt_st).
+# sizeof depends on the configuration (word size); it is recovered at run time from beltFMT_keep(65536, 2):
+# for mod = 65536 the routine does not use its approximation but the closed form (16 n + 63) / 64, which is 1 for
+# n = 1, so base = beltFMT_keep(65536, 2) - 16.  (If that anchor were off, every entry of the table would be off by
+# the same amount and the whole table would be reported.)  The same B(mod, n1), B(mod, n2) govern what
+# beltFMTStart puts into the state, i.e. the ciphertext.
+
+class FmtB:
+    def __init__(self, lib):
+        self.lib = lib
+        self.base = lib.beltFMT_keep(65536, 2) - 16
+        if lib.beltFMT_keep(65536, 600) != self.base + 8 * (75 + 1):
+            raise Harness("beltFMT_keep anchor: unexpected layout")
+
+    def b(self, mod, n):
+        k = self.lib.beltFMT_keep(mod, 2 * n) - self.base
+        if k % 8 or k < 16:
+            raise Harness("beltFMT_keep(%d, %d) does not fit the documented layout" % (mod, 2 * n))
+        return k // 8 - 1
+
+
+def _report_b(u, mod, n, got, exp):
+    u.bad("beltFMT", "blockcount", "mod=%d,n=%d" % (mod, n),
+          "beltFMT block count for words of length n over ZZ_mod is %d, exact ceil(n log2(mod) / 64) = %d" % (got, exp),
+          {"mod": mod, "n": n, "library_blocks": got, "exact_blocks": exp,
+           "observed_through": "beltFMT_keep(mod, 2n) - beltFMT_keep(65536, 2)"})
+
+
+def u16s(ws):
+    return b"".join(w.to_bytes(2, "little") for w in ws)
+
+
+def from_u16s(b):
+    return [int.from_bytes(b[i:i + 2], "little") for i in range(0, len(b), 2)]
+
+
+def fmtcls(mod, cnt):
+    b1, b2 = M.fmt_b(mod, (cnt + 1) // 2), M.fmt_b(mod, cnt // 2)
+    f = lambda b: "block" if b == 1 else "32block" if b == 2 else "wblock"
+    return "fmt:%s/%s" % (f(b1), f(b2))
+
+
+def _fmt_word(rng, mod, cnt):
+    k = rng.randrange(8)
+    rnd = [rng.randrange(mod) for _ in range(cnt)]
+    if k == 0:
+        return [0] * cnt
+    if k == 1:
+        return [mod - 1] * cnt
+    if k == 2:
+        return [i % mod for i in range(cnt)]
+    return rnd
+
+
+def _fmt_case(u, fb, mod, cnt, klen):
+    ctx, lib, rng = u.ctx, u.lib, u.rng
+    key = u.key(klen)
+    iv, iv2 = pat(rng, 16), pat(rng, 16)
+    null_iv = rng.randrange(5) == 0
+    x, z = _fmt_word(rng, mod, cnt), _fmt_word(rng, mod, cnt)
+    n1, n2 = (cnt + 1) // 2, cnt // 2
+    cls = fmtcls(mod, cnt)
+    mcls = "mod=65536" if mod == 65536 else "mod=2^k" if mod & (mod - 1) == 0 else "mod-generic"
+    det = {"mod": mod, "count": cnt, "key": key, "iv": None if null_iv else iv}
+    ivm = None if null_iv else iv
+
+    def expected(f, w, ivx, lb):
+        """model value; with the library's own block counts when those are wrong (already reported separately)"""
+        return f(mod, w, key, ivx, None if lb == (M.fmt_b(mod, n1), M.fmt_b(mod, n2)) else lb)
+
+    def blockcounts():
+        lb = (fb.b(mod, n1), fb.b(mod, n2))
+        for n, g in ((n1, lb[0]), (n2, lb[1])):
+            if g != M.fmt_b(mod, n):
+                _report_b(u, mod, n, g, M.fmt_b(mod, n))
+        return lb
+    if ctx.case(dict(det, op="beltFMTEncr", src=x), cls + ":encr"):
+        lb = blockcounts()
+        dest = lib.alloc(2 * cnt)
+        r = lib.beltFMTEncr(dest, mod, lib.mk(u16s(x)), cnt, lib.mk(key), klen, 0 if null_iv else lib.mk(iv))
+        got = from_u16s(lib.rd(dest, 2 * cnt))
+        dest2 = lib.alloc(2 * cnt)
+        r2 = lib.beltFMTDecr(dest2, mod, lib.mk(u16s(got)), cnt, lib.mk(key), klen, 0 if null_iv else lib.mk(iv))
+        back = from_u16s(lib.rd(dest2, 2 * cnt))
+        lib.release()
+        ctx.digest(u16s(got), r, u16s(back), r2)
+        d = dict(det, src=x)
+        if u.rc("beltFMTEncr", mcls, r, 0, d):
+            u.eq("beltFMTEncr", mcls, got, expected(M.fmt_encr, x, ivm, lb), d)
+            if any(w >= mod for w in got):
+                u.bad("beltFMTEncr", "format", mcls, "ciphertext symbol outside the alphabet", dict(d, got=got))
+        if r == 0 and u.rc("beltFMTDecr", mcls, r2, 0, d):
+            u.inv("beltFMTDecr", mcls, back, x, d)
+    if ctx.case(dict(det, op="beltFMTDecr", src=z), cls + ":decr"):
+        lb = blockcounts()
+        dest = lib.alloc(2 * cnt)
+        r = lib.beltFMTDecr(dest, mod, lib.mk(u16s(z)), cnt, lib.mk(key), klen, 0 if null_iv else lib.mk(iv))
+        got = from_u16s(lib.rd(dest, 2 * cnt))
+        lib.release()
+        ctx.digest(u16s(got), r)
+        d = dict(det, src=z)
+        if u.rc("beltFMTDecr", mcls, r, 0, d):
+            u.eq("beltFMTDecr", mcls, got, expected(M.fmt_decr, z, ivm, lb), d)
+    if ctx.case(dict(det, op="beltFMTStep", src=x, iv2=iv2), cls + ":steps"):
+        lb = blockcounts()
+        st = lib.alloc(lib.beltFMT_keep(mod, cnt))
+        lib.beltFMTStart(st, mod, cnt, lib.mk(key), klen)
+        p = lib.mk(u16s(x))
+        lib.beltFMTStepE(p, 0 if null_iv else lib.mk(iv), st)
+        g1 = from_u16s(lib.rd(p, 2 * cnt))
+        q = lib.mk(u16s(x))
+        lib.beltFMTStepE(q, lib.mk(iv2), st)                       # same state, other IV
+        g2 = from_u16s(lib.rd(q, 2 * cnt))
+        lib.beltFMTStepD(q, lib.mk(iv2), st)
+        g3 = from_u16s(lib.rd(q, 2 * cnt))
+        lib.release()
+        ctx.digest(u16s(g1), u16s(g2), u16s(g3))
+        d = dict(det, src=x, iv2=iv2)
+        u.eq("beltFMTStepE", mcls, g1, expected(M.fmt_encr, x, ivm, lb), d)
+        u.eq("beltFMTStepE", mcls + ":reuse", g2, expected(M.fmt_encr, x, iv2, lb), d)
+        u.inv("beltFMTStepD", mcls, g3, x, d)
+
+
+def unit_fmt(ctx):
+    u = U(ctx)
+    rng = u.rng
+    fb = FmtB(u.lib)
+    chunk, nch, nrand, allkeys = (ctx.params[k] for k in ("chunk", "nch", "nrand", "allkeys"))
+    combos = [(mod, cnt) for mod in FMT_ALPHABETS for cnt in FMT_COUNTS]
+    mine = [(i, c) for i, c in enumerate(combos) if i % nch == chunk]
+    for j in range(nrand):
+        mod = rng.randrange(2, 65537)
+        cnt = rng.choice(FMT_COUNTS) if j % 2 else rng.randrange(2, 601)
+        mine.append((len(combos) + chunk + j, (mod, cnt)))
+    for i, (mod, cnt) in mine:
+        for klen in (KLENS if allkeys else (KLENS[(i + i // len(FMT_COUNTS)) % 3],)):
+            _fmt_case(u, fb, mod, cnt, klen)
+    u.done()
+
+
+def unit_fmt_table(ctx):
+    """block-count table against exact integer arithmetic; one case = one alphabet size (a row of the table)"""
+    u = U(ctx)
+    lib, rng = u.lib, u.rng
+    fb = FmtB(lib)
+    mode, lo, hi = ctx.params["mode"], ctx.params["lo"], ctx.params["hi"]
+    keep, base = lib.beltFMT_keep, fb.base
+    rows = []
+    if mode == "full":                 # every mod in [lo, hi), every n in [1, 300]
+        rows = [(mod, None) for mod in range(lo, hi)]
+    elif mode == "allmods":            # every mod in [lo, hi) at 6 values of n
+        for mod in range(lo, hi):
+            rows.append((mod, sorted({1, 2, 300, rng.randrange(3, 300), rng.randrange(3, 300), rng.randrange(100, 300)})))
+    else:                              # "alln": boundary alphabets + random ones at every n
+        special = set(FMT_ALPHABETS) | {2 ** k for k in range(1, 17)} | {2 ** k - 1 for k in range(2, 17)} | \
+                  {2 ** k + 1 for k in range(1, 16)} | {46341, 46340, 23170, 23171, 49666, 49668, 65534}
+        special = sorted(special)
+        rows = [(m, None) for i, m in enumerate(special) if i % ctx.params["nch"] == ctx.params["chunk"]]
+        rows += [(rng.randrange(2, 65537), None) for _ in range(ctx.params["nrand"])]
+    allns = list(range(1, 301))
+    for mod, ns in rows:
+        full = ns is None
+        if not ctx.case(["fmt-blockcount-row", mod, "all n in 1..300" if full else ns],
+                        "fmt-table:" + ("row-all-n" if full else "row-6-n")):
+            continue
+        nn = allns if full else ns
+        got = []
+        for n in nn:
+            k = keep(mod, 2 * n) - base
+            got.append(k // 8 - 1 if k % 8 == 0 else -1)
+        ctx.digest(bytes(g & 255 for g in got))
+        # exact: b = ceil(bitlen(mod^n - 1) / 64)
+        if full:
+            p, exp = 1, []
+            for n in nn:
+                p *= mod
+                exp.append(((p - 1).bit_length() + 63) >> 6)
+        else:
+            exp = [M.fmt_b(mod, n) for n in nn]
+        if got != exp:
+            for n, g, e in zip(nn, got, exp):
+                if g != e:
+                    _report_b(u, mod, n, g, e)
+        ctx.count(len(nn) - 1, "fmt-table:entry", distinct=len(nn) - 1)
+    ctx.note("fmt_table_entries", sum(300 if ns is None else len(ns) for _, ns in rows))
+    u.done()
+
+
+# ---------------------------------------------------------------------------
+# jobs / main
+# ---------------------------------------------------------------------------
+
+def jobs(tier, scale=1.0):
+    q = tier == "quick"
+    J = []
+
+    def sc(v):
+        return max(1, int(round(v * scale)))
+
+    def add(unit, **p):
+        J.append({"unit": "c01:" + unit, "params": p})
+    add("unit_selftest")
+    # FMT first: its largest cases are the slowest
+    nf = 16
+    for k in range(nf):
+        add("unit_fmt", chunk=k, nch=nf, nrand=sc(2 if q else 12), allkeys=(not q) and scale >= 0.5)
+    if q or scale < 1:
+        for k in range(8):
+            add("unit_fmt_table", mode="allmods", lo=2 + k * 8192, hi=min(65537, 2 + (k + 1) * 8192))
+        for k in range(4):
+            add("unit_fmt_table", mode="alln", lo=0, hi=0, chunk=k, nch=4, nrand=sc(60))
+    else:
+        J.extend(fmt_table_full_jobs())
+    nw = 16
+    for k in range(nw):
+        add("unit_wbl", chunk=k, nch=nw, reps=sc(2 if q else 8), tamper_every=2 if q else 1)
+    nm = 8 if q else 16
+    for k in range(nm):
+        add("unit_modes", chunk=k, nch=nm, reps=sc(6 if q else 32))
+    na = 8 if q else 16
+    for k in range(na):
+        add("unit_aead", chunk=k, nch=na, nad=3 if q or scale < 0.5 else len(MSG_BOUNDARY), tamper_every=2 if q else 1)
+    nk = 4 if q else 8
+    for k in range(nk):
+        add("unit_kdf", chunk=k, nch=nk, reps=sc(4 if q else 40), nmsg=3 if q or scale < 0.5 else len(MSG_BOUNDARY))
+    for k in range(4):
+        add("unit_block", chunk=k, n=sc(300 if q else 3000))
+    for k in range(1 if q else 4):
+        add("unit_carry", chunk=k, reps=sc(2 if q else 20))
+    add("unit_addbits", n=sc(300 if q else 5000))
+    return J
+
+
+def fmt_table_full_jobs(nch=32):
+    """the complete table mod in [2, 65536] x n in [1, 300]: 19 660 500 entries"""
+    step = (65535 + nch - 1) // nch
+    out = []
+    for k in range(nch):
+        lo, hi = 2 + k * step, min(65537, 2 + (k + 1) * step)
+        if lo < hi:
+            out.append({"unit": "c01:unit_fmt_table", "params": {"mode": "full", "lo": lo, "hi": hi}})
+    return out
+
+
+REQUIRED = (
+    "model:selftest", "H-table", "keyexpand:16", "keyexpand:24", "keyexpand:32", "block:encr", "block:decr", "compress",
+    "ecb:ragged1", "ecb:ragged3", "ecb:full1", "cbc:ragged1", "cbc:ragged1:steps", "cbc:full3", "cfb:empty", "cfb:short",
+    "ctr:ragged3", "ctr:ragged3:steps", "bde:full3", "sde:full2", "sde:full3:steps", "mac:empty", "mac:full1", "mac:ragged2",
+    "hash:empty", "hash:full1", "hash:ragged2:steps",
+    "wbl:E:ragged(base)", "wbl:E:full<64(base)", "wbl:E:full64(E-opt,D-base)", "wbl:E:full>=80(opt)",
+    "wbl:D:ragged(base)", "wbl:D:full64(E-opt,D-base)", "wbl:D:full>=80(opt)", "wbl:R:full>=80(opt)",
+    "kwp:wrap:ragged(base)", "kwp:unwrap:full>=80(opt)", "kwp:ragged(base):tamper-header", "kwp:full>=80(opt):tamper-token",
+    "dwp:x-empty", "dwp:x-ragged3", "dwp:steps:ad-empty", "dwp:steps:ad-ragged1", "dwp:tamper-mac", "dwp:tamper-ciphertext",
+    "dwp:tamper-ad", "dwp:tamper-iv", "dwp:tamper-key", "dwp:tamper-split",
+    "che:x-empty", "che:x-ragged3", "che:tamper-mac", "che:tamper-ciphertext", "che:tamper-key",
+    "ctr-carry:low32-ones", "ctr-carry:low64-ones", "ctr-carry:low96-ones", "ctr-carry:low128-ones",
+    "dwp-carry:low128-ones", "che-mulc:top-bit", "bde-mulc:all-ones",
+    "len128:boundary", "len128:chain", "len64:boundary",
+    "krp:16->16", "krp:24->16", "krp:24->24", "krp:32->16", "krp:32->24", "krp:32->32",
+    "hmac:keyempty", "hmac:key<32", "hmac:key=32", "hmac:key>32(hashed)", "pbkdf2:iter1", "pbkdf2:iter>2",
+    "fmt:block/block:encr", "fmt:32block/block:encr", "fmt:32block/32block:decr", "fmt:wblock/32block:encr",
+    "fmt:wblock/wblock:steps", "fmt-table:entry",
+)
+
+
+def main(run):
+    q = run.tier == "quick"
+    js = [dict(j, cfg="asan64") for j in jobs(run.tier)]
+    if not q:
+        for cfg in ("asan32", "rel64"):
+            js += [dict(j, cfg=cfg) for j in jobs("thorough", 0.15)]
+        # the block-count routine works on machine words: the complete table also with 32-bit words
+        js += [dict(j, cfg="asan32") for j in fmt_table_full_jobs()]
+    run.run_jobs(js)
+    run.coverage_extra["fmt_table_exhaustive"] = not q
+    run.coverage_extra["fmt_table_observable"] = (
+        "B(mod, n) = (beltFMT_keep(mod, 2n) - beltFMT_keep(65536, 2)) / 8 + 1, compared with ceil(bitlen(mod^n - 1) / 64)")
+    return run.finish(
+        rule="one case = one library call sequence on fresh random/boundary inputs (key of 16/24/32 octets, IV, header, "
+             "level, message) compared octet for octet with the reference model, or one group of tampered unwrap calls, "
+             "or one row (alphabet size) of the FMT block-count table; lengths sweep 0..80 octets (modes, MAC, hash, "
+             "DWP, CHE), 32..208 (WBL, KWP), sectors to 256; distinct = distinct (operation, inputs)",
+        assumptions=[
+            "vlib/ref/belt.py is the statement of STB 34.101.31: it reproduces every Appendix-A vector embedded in "
+            "belt_test.c (and B.1 of STB 34.101.47, E.5 of STB 34.101.45); agreement of two independent implementations "
+            "plus these anchors is the claim",
+            "belt-fmt tweak layout and belt-32block are taken from the C code (belt.h is silent), anchored by test A.26",
+            "messages of 2^29 octets and more are exercised only through the exported length helpers "
+            "beltBlockAddBitSizeU32 / beltHalfBlockAddBitSizeW",
+            "a 64-bit tag / 128-bit header collision of a tampered input (probability 2^-64 / 2^-128) is ignored",
+        ],
+        min_eval=5000, required_classes=REQUIRED)
